@@ -387,8 +387,83 @@ def gen_state(rng):
     return st
 
 
-PLAN_MUTATIONS = ["dup_eof", "dup_eof", "past_eof", "at_eof", "mid_char", "swap", "huge", "shift1", "neg", "float", "string", "null", "empty_file", "dup",
+OVERLAPS = ["overlap_nested", "overlap_straddle_right", "overlap_straddle_left", "overlap_same_start", "overlap_same_end",
+            "overlap_adjacent", "overlap_reversed", "dup_other_replacement", "overlap_enclosing"]
+PLAN_MUTATIONS = OVERLAPS + OVERLAPS + ["dup_eof", "dup_eof", "past_eof", "at_eof", "mid_char", "swap", "huge", "shift1", "neg", "float", "string", "null", "empty_file", "dup",
                   "file_missing", "file_dir", "content_nonutf8", "line0", "rename_self", "rename_outside"]
+
+
+def write_plan(root, hunks):
+    """.renamify/plan.json for hunks [file name hex, before, after, start, end] (absolute paths are only known here)"""
+    ms = []
+    for f, b, a, st, en in hunks:
+        ms.append({"file": os.path.join(root, os.fsdecode(U(f))), "line": 1, "byte_offset": 0, "char_offset": 0, "variant": b, "content": b,
+                   "replace": a, "start": st, "end": en})
+    plan = {"id": "c16replay", "created_at": "0", "search": "s", "replace": "r", "styles": [], "includes": [], "excludes": [], "matches": ms,
+            "paths": [], "stats": {"files_scanned": 1, "total_matches": len(ms), "matches_by_variant": {}, "files_with_matches": 1},
+            "version": "1.0.0"}
+    os.makedirs(os.path.join(root, ".renamify"), exist_ok=True)
+    with open(os.path.join(root, ".renamify", "plan.json"), "w") as fh:
+        json.dump(plan, fh)
+
+
+def boundaries(data):
+    """character boundaries of a byte string that is valid UTF-8 (else every ASCII position)"""
+    return [i for i in range(len(data) + 1) if i == len(data) or not (0x80 <= data[i] < 0xC0)]
+
+
+def overlap_hunk(m, data, how, arg):
+    """a second hunk for the same file whose range overlaps / touches `m`'s, individually valid: in range, on character
+    boundaries, `content` = the text that is really there. None if the file does not allow it."""
+    s, e = m.get("start"), m.get("end")
+    if not (isinstance(s, int) and isinstance(e, int) and 0 <= s < e <= len(data)):
+        return None
+    bs = boundaries(data)
+    inside = [b for b in bs if s < b < e]
+    before = [b for b in bs if b < s][-(3 + arg):]
+    after = [b for b in bs if b > e][: 3 + arg]
+    if how == "overlap_nested":
+        if len(inside) < 1:
+            return None
+        a, b = (s, inside[arg % len(inside)]) if arg % 2 == 0 or len(inside) < 2 else (inside[0], inside[-1])
+    elif how == "overlap_straddle_right":
+        if not inside or not after:
+            return None
+        a, b = inside[arg % len(inside)], after[arg % len(after)]
+    elif how == "overlap_straddle_left":
+        if not inside or not before:
+            return None
+        a, b = before[arg % len(before)], inside[arg % len(inside)]
+    elif how == "overlap_same_start":
+        if not after:
+            return None
+        a, b = s, after[arg % len(after)]
+    elif how == "overlap_same_end":
+        if not before:
+            return None
+        a, b = before[arg % len(before)], e
+    elif how == "overlap_enclosing":
+        if not before or not after:
+            return None
+        a, b = before[0], after[-1]
+    elif how == "overlap_adjacent":
+        if not after:
+            return None
+        a, b = e, after[arg % len(after)]
+    elif how in ("overlap_reversed", "dup_other_replacement"):
+        a, b = s, e
+    else:
+        return None
+    if a >= b and how != "overlap_adjacent":
+        return None
+    try:
+        text = data[a:b].decode("utf-8")
+    except UnicodeDecodeError:
+        return None
+    x = dict(m)
+    x["start"], x["end"], x["content"], x["variant"] = a, b, text, text
+    x["replace"] = ["", "Z", text + text, "é", m.get("replace", "") + "_2"][arg % 5]
+    return x
 
 
 def mutate_plan(root, how, arg):
@@ -443,6 +518,24 @@ def mutate_plan(root, how, arg):
         open(m["file"], "wb").close()
     elif how == "dup":
         ms.append(dict(m))
+    elif how in OVERLAPS:
+        try:
+            data = open(m["file"], "rb").read()
+        except (OSError, TypeError):
+            data = b""
+        x = overlap_hunk(m, data, how, arg)
+        if x is None:
+            x = overlap_hunk(m, data, "dup_other_replacement", arg)
+        if x is not None:
+            i = ms.index(m)
+            if how == "overlap_reversed":
+                # a later hunk of the file listed in front of an earlier one, plus an overlap
+                ms.insert(0, x)
+                ms.reverse()
+            elif arg % 2:
+                ms.insert(i, x)
+            else:
+                ms.insert(i + 1, x)
     elif how == "dup_eof":
         # the same edit twice, a shorter replacement, and the match made the last thing in the file
         try:
@@ -561,18 +654,21 @@ def gen_case(rng, idx):
             ["plan"], ["plan", "a"], ["plan", "a", "b", "--preview", "bogus"], ["plan", "a", "b", "--only-styles", "bogus"],
             ["-C", "/nonexistent", "status"], ["-C", "", "status"], ["plan", "a", "b", "-C", "."], ["search"], ["replace", "a"],
             ["plan", search, repl, "--no-auto-init", "--dry-run", "--plan-out", ""], ["-uuuuuuuuuuuuuuuuuuuuuuuuuuuuuuuuuuuuuuu", "status"],
+            ["plan", "a", "b", "\udcff", "--bogus"], ["bogus", "\udcff"], ["search", "\udcc3", "--output", "json", "--nope"], ["-C", "\udcff", "status"],
+            ["plan", "a", "b", "\udcff", "--no-auto-init", "--dry-run"], ["apply", "\udcff.json", "--no-auto-init"],
             ["-u" * 1, "plan", "--no-auto-init", "a", "b"] + ["-u"] * 300, ["history", "--limit", "-1"], ["init", "--check", "--global"]])})
     else:  # paths
         names = [os.fsdecode(U(t[1])) for t in tree]
         cand = [n for n in names if not n.startswith("-")] + [".", "..", "/nonexistent", "", "./.", "nope/../."]
+        # names that are not UTF-8 travel as surrogate-escaped strings (JSON keeps them, execve gets the raw bytes back)
         ps = [rng.choice(cand) for _ in range(rng.randint(1, 2))]
-        try:
-            for x in ps:
-                x.encode("utf-8")
-        except UnicodeEncodeError:
-            ps = ["."]
+        if rng.random() < 0.25:
+            ps.append(rng.choice(["\udcff", "x\udcc3", "\udcfe\udcff.txt", "a\udc80b"]))
         cmd = rng.choice(["plan", "rename", "search", "replace"])
-        steps.append({"argv": argv_for(rng, cmd, search, repl if cmd != "search" else None, extra_paths=ps)})
+        a = argv_for(rng, cmd, search, repl if cmd != "search" else None, extra_paths=ps)
+        if rng.random() < 0.3:
+            a = a + rng.choice([["--bogus"], ["--preview", "bogus"], ["--output", "json", "--bogus"], ["--only-styles", "nope"]])   # clap rejects
+        steps.append({"argv": a})
     if fam in ("plan", "rename", "search", "replace", "paths", "plan_apply") and rng.random() < 0.2 and steps and "argv" in steps[0] \
             and "--quiet" not in steps[0]["argv"] and "json" not in steps[0]["argv"]:
         steps[0]["tty"] = True          # stdout on a pseudo-terminal: the coloured renderers
@@ -788,6 +884,8 @@ def execute(case, timeout=TIMEOUT):
                     pass
             elif s["mutate"] == "plan":
                 mutate_plan(root, s["how"], s["arg"])
+            elif s["mutate"] == "write_plan":
+                write_plan(root, s["hunks"])
             elif s["mutate"] == "lock":
                 os.makedirs(os.path.join(root, ".renamify"), exist_ok=True)
                 with open(os.path.join(root, ".renamify", "renamify.lock"), "wb") as fh:
